@@ -60,7 +60,7 @@ StepEv(cl, H, dev, s, e) ==
     [] e.kind = "call" ->
          CASE s.pc = "rollout" /\ s.k < H - 1 ->
                 R([s EXCEPT !.t = s.t + 1, !.k = s.k + 1], "rollout", s.k, s.t, "ok")
-           [] (s.pc = "rollout" /\ H = 1) \/ (s.pc = "backward" /\ s.k = H - 1) ->     \* first call of the forward pass
+           [] (s.pc = "rollout" /\ H = 1) \/ s.pc = "backward" ->     \* first call of the forward pass
                 LET t0 == Start(dev, s.t) IN
                 R([s EXCEPT !.pc = "forward", !.t = t0 + 1, !.k = 1], "forward", 0, t0, "ok")
            [] s.pc = "forward" /\ s.k < H ->
@@ -69,15 +69,20 @@ StepEv(cl, H, dev, s, e) ==
            [] OTHER -> R([s EXCEPT !.t = s.t + 1], "", 0, -1, "unexpected_system_call")
     [] e.kind = "ref" ->
          LET s1 == IF cl = "LTV" THEN [s EXCEPT !.t = e.targ] ELSE s IN
-         CASE s.pc = "rollout" /\ s.k = H - 1 /\ H >= 2 ->
-                R([s1 EXCEPT !.pc = "backward", !.k = 1, !.rt = e.targ], "backward", H - 2, -1, "ok")
-           [] s.pc = "backward" /\ s.k < H - 1 ->
-                R([s1 EXCEPT !.k = s.k + 1, !.rt = e.targ], "backward", H - 2 - s.k, -1, "ok")
+         \* The linearisation pass: any number of set_refpoint(t = stage) calls, in ANY order of the stages 0..H-2
+         \* (the action BackwardRef below takes them in descending order, as the code does today; a solver that linearises
+         \* in ascending order before its Riccati sweep, or once for a time-invariant system, is the same design as far as
+         \* the property goes - found by a behaviour-preserving refactoring).  The stage of a linearisation is the one it
+         \* names; what is judged is that the dynamics it reads are those of that stage.
+         CASE (s.pc = "rollout" /\ s.k = H - 1 /\ H >= 2) \/ s.pc = "backward" ->
+                IF e.targ < 0 \/ e.targ > H - 2 THEN R(s1, "", 0, -1, "refpoint_outside_horizon")
+                ELSE R([s1 EXCEPT !.pc = "backward", !.k = (IF s.pc = "backward" THEN s.k ELSE 0) + 1, !.rt = e.targ],
+                       "backward", e.targ, -1, "ok")
            [] s.pc = "idle" -> R(s1, "user", 0, -1, "ok")
            [] OTHER -> R(s1, "", 0, -1, "unexpected_set_refpoint")
     [] e.kind = "lin" ->
          IF s.pc = "backward" /\ s.k >= 1
-         THEN R(s, "backward", H - 1 - s.k, IF cl = "LTV" THEN s.t ELSE s.rt, "ok")
+         THEN R(s, "backward", s.rt, IF cl = "LTV" THEN s.t ELSE s.rt, "ok")
          ELSE IF s.pc = "idle" THEN R(s, "user", 0, -1, "ok")
          ELSE R(s, "", 0, -1, "unexpected_linearisation_read")
     [] e.kind = "end" ->
